@@ -41,9 +41,9 @@ LawCrcTable == vFam = "crc" => /\ CrcTab[1] = <<0, 0, 0, 0>> /\ CrcTab[2] = <<15
 
 \* ---------------------------------------------------------------- U-Boot --
 UbNames == {<<97>>, Mk([k \in 1..32 |-> 122])}
-UbWords == {<<0, 1, 0, 0>>, <<120, 86, 52, 255>>}
+UbWords == IF MaxLen > 2 THEN {<<0, 1, 0, 0>>, <<120, 86, 52, 255>>} ELSE {<<120, 86, 52, 255>>}
 UbCases == [data : SeqsUpTo({0, 255}, MaxLen), name : UbNames, load : UbWords, ep : {<<1, 0, 0, 128>>},
-            time : {<<0, 0, 0, 0>>, <<255, 255, 255, 127>>}, os : {"INVALID", "LINUX"}, arch : {"INVALID", "XTENSA"}]
+            time : {<<0, 0, 0, 0>>, <<255, 255, 255, 127>>}, os : {"INVALID", "LINUX"}, arch : IF MaxLen > 2 THEN {"INVALID", "XTENSA"} ELSE {"XTENSA"}]
 UbCase == vFam = "init" /\ PrintT(<<"ACT", "UbCase">>) /\ vFam' = "ub" /\ vCase' \in UbCases
 UbImage(c) == UbEncode(c.data, c.name, c.load, c.ep, c.time, UbOsCode[c.os], UbArchCode[c.arch], UbTypeKernel, UbCompNone)
 LawUbRoundTrip == vFam = "ub" => LET F == UbImage(vCase) IN
